@@ -137,6 +137,16 @@ def run(ctx: Any, prog: Program) -> None:
             p = mod.parents.get(p)
         return out
     ent_methods = vm.methods('Entity')
+    # the index arms of __setitem__ are reached by every call: the maps are also brought up to date by assignments that do not change the
+    # value (VMF.parse registers the parsed worldspawn with `worldspawn['classname'] = 'worldspawn'`; an entity added to the map after its
+    # keys were set is indexed the same way), so nothing may return before them
+    si_ = ent_methods['__setitem__']
+    arm_idx = next((i for i, st in enumerate(si_.body) if isinstance(st, ast.If) and "'classname'" in ast.unparse(st.test)), None)
+    if arm_idx is None:
+        raise AnalysisError('Entity.__setitem__: index maintenance chain (`if key_fold == \'classname\'` ...) not found at top level')
+    early = [r for st in si_.body[:arm_idx] for r in ast.walk(st) if isinstance(r, ast.Return)]
+    ctx.check('C07.I3', not early, vm, early[0] if early else si_, 'Entity.__setitem__ returns before the by_class / by_target maintenance' + (f' (when `{ast.unparse(vm.parents[early[0]].test)[:60]}`)' if early and isinstance(vm.parents.get(early[0]), ast.If) else '')
+              + ': an assignment that leaves the value unchanged must still (re-)register the entity - VMF.parse and add_ent-after-construction rely on it', func='Entity.__setitem__', text='__setitem__: index arms reached on every call')
     for name in ('__setitem__', '__delitem__'):
         fn = ent_methods[name]
         for n in walk_no_nested(fn):
@@ -371,6 +381,7 @@ def run(ctx: Any, prog: Program) -> None:
 
 
 MUTANTS = [
+    {'id': 'setitem_returns_when_value_unchanged', 'file': 'vmf.py', 'find': "        # TODO: if 'mapversion' is passed and self is self.map.spawn, update version there.\n", 'replace': "        if orig_val == str_val:\n            return\n        # TODO: if 'mapversion' is passed and self is self.map.spawn, update version there.\n", 'expect': 'C07.I3'},
     {'id': 'search_classname_only_if_no_targetname', 'file': 'vmf.py', 'find': "            if name in list(self.by_class):\n                yield from self.by_class[name]", 'replace': "            yield from (self.by_target.get(name) or self.by_class.get(name) or ())", 'expect': 'C07.I9'},
     {'id': 'search_drops_classname_lookup', 'file': 'vmf.py', 'find': "            if name in list(self.by_class):\n                yield from self.by_class[name]", 'replace': "            pass", 'expect': 'C07.I9'},
     {'id': 'search_class_via_get', 'file': 'vmf.py', 'find': "            if name in list(self.by_class):\n                yield from self.by_class[name]", 'replace': "            yield from self.by_class.get(name, ())", 'expect': None},
